@@ -140,9 +140,17 @@ def check_codec(ctx: Context, rep, rule: str) -> dict:
     sup = ctx.fn("sedpack.io.compress:CompressedFile.supported_compressions")
     rets = [n for n in sup.body_nodes() if isinstance(n, ast.Return)]
     listed = None
-    if len(rets) == 1 and isinstance(rets[0].value, (ast.List, ast.Tuple)):
-        listed = [e.value for e in rets[0].value.elts
-                  if isinstance(e, ast.Constant)]
+    rv = rets[0].value if len(rets) == 1 else None
+    # list(<display>) / tuple(<display>) / a module-level display constant
+    while isinstance(rv, ast.Call) and isinstance(rv.func, ast.Name) and \
+            rv.func.id in ("list", "tuple", "sorted") and len(rv.args) == 1 \
+            and rv.func.id != "sorted":
+        rv = rv.args[0]
+    if isinstance(rv, ast.Name) and isinstance(
+            sup.module.globals.get(rv.id), (ast.List, ast.Tuple)):
+        rv = sup.module.globals[rv.id]
+    if isinstance(rv, (ast.List, ast.Tuple)):
+        listed = [e.value for e in rv.elts if isinstance(e, ast.Constant)]
     init = ctx.fn("sedpack.io.compress:CompressedFile.__init__")
     rejected: set = set()
     for n in init.body_nodes():
